@@ -87,6 +87,7 @@ U_C06(zz) ==
     \cup {DataDecl(md, w, {88, 10, 1}, 5) : md \in RegexModes("Xplus_or_end"), w \in Windows}
     \cup {DataDecl(md, w, {89, 1}, 6) : md \in RegexModes("Ystar"), w \in Windows}
     \cup {DataDecl(md, w, {0, 1, 65}, 5) : md \in {SzRegex("EOS", FALSE, TRUE)}, w \in {-1, 2}}
+    \cup {DataDecl(md, w, {0, 10, 65}, 5) : md \in {SzRegex("dollar", FALSE, TRUE)}, w \in {-1, 2}}
     \* context-sensitive regexes: what precedes the search buffer must not matter
     \cup {DataDecl(md, w, {81, 90, 1}, 5) : md \in RegexModes("QnotZ"), w \in {-1, 2, 3}}
     \cup {DataDecl(md, w, {88, 1}, 5) : md \in RegexModes("caretX"), w \in {-1, 2}}
